@@ -19,7 +19,16 @@ extra4 = (" In this round write the kind of defect that slips in with a well-mea
           "default or a keyword at one of two call sites, merging two similar code paths, or tightening / loosening an input check. "
           "Avoid plain single-token boundary slips (< vs <=) unless they are hidden inside such a refactor. Each mutant must still "
           "satisfy (a) and (b), and at least one should only manifest for a combination of two non-default options.")
-extra = extra4 if rnd.startswith("r4") else extra3 if rnd.startswith("r3") else "" if not rnd else (" In this round prefer the LESS obvious sites: helper and utility code, validation, base classes, "
+extra6 = (" In this round aim at INTERACTIONS and leftovers: (1) two public features that are documented as independent but meet in the "
+          "code (two hyper-parameters, a hyper-parameter and an input form, a component and the detector that wraps it, refit and "
+          "update, an option and an entry point) so that each works alone and the combination breaks the property; (2) exception "
+          "safety - a call that legitimately raises (bad input, documented error) leaves the object half-updated and a LATER valid "
+          "call misbehaves; (3) values that are legal but rarely generated: -0.0, subnormal or very large finite numbers, exactly "
+          "repeated rows, already-sorted or reversed or duplicated entries in user-supplied lists, empty results, single-row or "
+          "single-column shapes, index arithmetic near 2**31 for long inputs; (4) the result object rather than its values - dtype, "
+          "index, column order or names of returned frames, aliasing between returned arrays and internal state. At least TWO of the "
+          "three mutants must be of kinds (1) or (2), and each must still satisfy (a) and (b).")
+extra = extra6 if rnd.startswith("r6") else extra4 if rnd.startswith("r4") else extra3 if rnd.startswith("r3") else "" if not rnd else (" In this round prefer the LESS obvious sites: helper and utility code, validation, base classes, "
                             "penalty / threshold construction, conversions, caching and state handling, parameter plumbing between "
                             "classes - rather than the most central line of the main algorithm loop - and make at least TWO of the "
                             "three mutants need a rare input or boundary configuration to manifest.")
